@@ -470,10 +470,22 @@ pub async fn run_peer_async(c: &PeerCase) -> Result<(bool, Vec<String>), String>
                 Ok(r) => log.push(format!("outcome#{i}={}", match &r { Ok(o) => format!("Ok({o:?})"), Err(e) => format!("Err({e:?})") })),
             }
         }
-        let (receiver, rr) = recv_fut.await.expect("recv task");
+        let (mut receiver, rr) = recv_fut.await.expect("recv task");
         match rr {
             Err(_) => errs.push("HANG: pending recv never completed".into()),
             Ok(r) => log.push(format!("recv={:?}", r)),
+        }
+        // operations issued after the peer's close/end/detach: every link of the case is affected by it, so
+        // a new send and a new recv must complete, and fail
+        match tokio::time::timeout(Duration::from_secs(900), sender.send(body(3))).await {
+            Err(_) => errs.push("HANG: a send issued after the peer's close/end/detach never completed".into()),
+            Ok(Ok(o)) => errs.push(format!("a send issued after the peer's close/end/detach succeeded: {o:?}")),
+            Ok(Err(e)) => log.push(format!("post.send:Err({e:?})")),
+        }
+        match tokio::time::timeout(Duration::from_secs(900), receiver.recv::<Body<Value>>()).await {
+            Err(_) => errs.push("HANG: a recv issued after the peer's close/end/detach never completed".into()),
+            Ok(Ok(_)) => errs.push("a recv issued after the peer's close/end/detach returned a delivery".into()),
+            Ok(Err(e)) => log.push(format!("post.recv:Err({e:?})")),
         }
         (sender, receiver, log, errs)
     });
@@ -545,6 +557,22 @@ pub async fn run_peer_async(c: &PeerCase) -> Result<(bool, Vec<String>), String>
             }
         }
     }
+    // data-path operations on the enclosing scopes: after a peer end the session cannot attach (the connection
+    // can still begin); after a peer close neither works
+    if c.what <= 1 {
+        match tokio::time::timeout(Duration::from_secs(900), Sender::builder().name("late").target("q").attach(&mut sess)).await {
+            Err(_) => errs.push("HANG: an attach issued after the peer's close/end never completed".into()),
+            Ok(Ok(_)) => errs.push("an attach issued after the peer's close/end succeeded".into()),
+            Ok(Err(e)) => log.push(format!("post.attach:Err({e:?})")),
+        }
+    }
+    if c.what == 0 {
+        match tokio::time::timeout(Duration::from_secs(900), Session::begin(&mut conn)).await {
+            Err(_) => errs.push("HANG: a begin issued after the peer's close never completed".into()),
+            Ok(Ok(_)) => errs.push("a begin issued after the peer's close succeeded".into()),
+            Ok(Err(e)) => log.push(format!("post.begin:Err({e:?})")),
+        }
+    }
     // teardown calls return; answer them
     let td = async {
         let mut v = Vec::new();
@@ -601,8 +629,8 @@ pub async fn run_peer_async(c: &PeerCase) -> Result<(bool, Vec<String>), String>
     log.extend(v);
     if is_detach && c.with_error {
         // each link must have reported the peer's condition through one of its operations
-        let snd_ok = log.iter().any(|l| (l.starts_with("outcome#") || l.starts_with("send_batchable#") || l.starts_with("sender.close")) && l.contains("ResourceLimitExceeded"));
-        let rcv_ok = log.iter().any(|l| (l.starts_with("recv=") || l.starts_with("receiver.close")) && l.contains("ResourceLimitExceeded"));
+        let snd_ok = log.iter().any(|l| (l.starts_with("outcome#") || l.starts_with("send_batchable#") || l.starts_with("post.send") || l.starts_with("sender.close")) && l.contains("ResourceLimitExceeded"));
+        let rcv_ok = log.iter().any(|l| (l.starts_with("recv=") || l.starts_with("post.recv") || l.starts_with("receiver.close")) && l.contains("ResourceLimitExceeded"));
         if !snd_ok {
             errs.push("no operation on the sending link reported the condition the peer detached it with".into());
         }
